@@ -50,9 +50,17 @@ def parse_sexp(text):
     return p()
 
 
+def is_err(mo):
+    """a driver output that is an error record (driver unavailable / died)"""
+    return isinstance(mo, list) and len(mo) >= 1 and mo[0] == 'error'
+
+
 def sx_to_str(x):
-    """(99 100) -> 'cd'"""
-    return ''.join(chr(int(c)) for c in x)
+    """(99 100) -> 'cd'   (an error record gives a string no implementation output equals)"""
+    try:
+        return ''.join(chr(int(c)) for c in x)
+    except (ValueError, TypeError):
+        return '\ufffe<model-unavailable>'
 
 
 DRIVER_OK = True     # set by proof_step; when False every model-side run is skipped (implementation-side search only)
